@@ -23,7 +23,7 @@ Lemma flight_server_reads_back_initial_keys c helloLen plens k pn pnLen h fs lf 
   zlen dcid <= 20 -> zlen scid <= 20 ->
   1 <= pnLen <= 4 -> pn < 2 ^ 62 -> 0 <= c_first c ->
   zlen payload = pk - h - overhead -> payload <> [] -> 4 <= pnLen + zlen payload ->
-  (largest = pn - 1 \/ (largest = -1 /\ pn <= 2 ^ (pnLen * 8) / 2)) ->
+  (largest = pn - 1 \/ (largest = -1 /\ pn < 2 ^ (pnLen * 8))) ->
   let v2 := ver =? H_Version2 in
   let hb := initialHeaderBytes ver dcid scid token lf pn pnLen in
   let pkt := initial_protect v2 true keyDcid (snd hb) payload pn (Z.to_nat pnLen) in
